@@ -134,6 +134,7 @@ int main(int argc, char **argv){
   misuse("setSurplusRefinement(tol, output)(limits of wrong size)", [&]{ grid.setSurplusRefinement(0.1, 0, badlim); }, !empty && nl > 0 && !local && !constructing && OUTS > 0);
   misuse("setSurplusRefinement(tol, output)(local polynomial / wavelet grid)", [&]{ grid.setSurplusRefinement(0.1, 0, std::vector<int>()); }, !empty && nl > 0 && local && !constructing);
   misuse("setSurplusRefinement(tol, output)(global grid with a rule that is not a sequence)", [&]{ grid.setSurplusRefinement(0.1, 0, std::vector<int>()); }, grid.isGlobal() && !OneDimensionalMeta::isSequence(grid.getRule()) && nl > 0 && !constructing && OUTS > 0);
+  misuse("setSurplusRefinement(tol, output)(global grid with a rule that is not a sequence, valid limits)", [&]{ grid.setSurplusRefinement(0.1, 0, oklim); }, grid.isGlobal() && !OneDimensionalMeta::isSequence(grid.getRule()) && nl > 0 && !constructing && OUTS > 0);
   misuse("setSurplusRefinement(tol, criteria)(global grid with a rule that is not a sequence)", [&]{ grid.setSurplusRefinement(0.1, refine_classic, 0, std::vector<int>()); }, grid.isGlobal() && !OneDimensionalMeta::isSequence(grid.getRule()) && nl > 0 && !constructing && OUTS > 0);
   misuse("setSurplusRefinement(tol, output)(during construction)", [&]{ grid.setSurplusRefinement(0.1, 0, std::vector<int>()); }, constructing);
   misuse("setSurplusRefinement(tol, criteria)(output out of range, valid limits)", [&]{ grid.setSurplusRefinement(0.1, refine_classic, OUTS + 3, oklim); }, !empty && nl > 0 && !constructing && OUTS > 0);
